@@ -315,7 +315,11 @@ func (c *ctx) buildAll(names []string) error {
 		}
 	}
 	if !inObserver {
-		if out, err := run(filepath.Join(c.scratch, "voi"), goEnv(), "go", "build", "./..."); err != nil {
+		probe := []string{"build", "./..."}
+		if c.spec.Instr != "" {
+			probe = []string{"build", "-tags", "verifmin", "./..."}
+		}
+		if out, err := run(filepath.Join(c.scratch, "voi"), goEnv(), "go", probe...); err != nil {
 			return fmt.Errorf("the working tree does not build: %s", firstLines(out, 20))
 		}
 		return fmt.Errorf("driver build failed outside the in-package observers (harness defect):\n%s", strings.Join(c.notes, "\n"))
